@@ -49,7 +49,7 @@ def cg_skeleton(rng, fragname):
     """small coarse fragment; with probability 1/2 every node carries the fragment's own name"""
     own = rng.random() < 0.5
     nm = (lambda: fragname) if own else (lambda: rng.choice(CG_NAMES))
-    shape = rng.choice(['1', '2', '3', 'b', 'r', 'd', 'bd', 'rd', 'ir', 'il', 'fan', '1', '2', '3', 'b', 'r', 'd', 'bd', 'rd', 'ir', 'il'])
+    shape = rng.choice(['1', '2', '3', 'b', 'r', 'd', 'bd', 'rd', 'ir', 'il', 'fan', '1', '2', '3', 'b', 'r', 'd', 'bd', 'rd', 'ir', 'il', 'zb', 'zr', 'zb', 'zr'])
     n = lambda: '[#%s]' % nm()
     if shape == '1':
         return n()
@@ -61,12 +61,16 @@ def cg_skeleton(rng, fragname):
         return n() + '(' + n() + ')' + n()
     if shape == 'r':
         return n() + '1' + n() + n() + '1'
-    if shape == 'd':
-        return n() + rng.choice('=#') + n()
+    if shape == 'd':        # order 0 is the '.' bond (virtual sites, ionic contacts)
+        return n() + rng.choice('=#.') + n()
     if shape == 'bd':
-        return n() + '(' + n() + ')' + '=' + n()
+        return n() + '(' + n() + ')' + rng.choice('=.') + n()
+    if shape == 'zb':       # '.' on a branch edge (written in front of the parenthesis) and inside the branch
+        return n() + '.(' + n() + '.' + n() + ')' + n()
+    if shape == 'zr':       # '.' on a ring-closing edge
+        return n() + '.1' + n() + n() + rng.choice(['', '=']) + n() + '1'
     if shape == 'ir':   # interleaved rings: 1 opened, 2 opened, 1 closed, a third opened while 2 is open
-        s = rng.choice(['', '', '=', '#'])
+        s = rng.choice(['', '', '=', '#', '.'])
         return n() + '1' + n() + s + '2' + n() + '1' + n() + '3' + n() + '2' + n() + '3'
     if shape == 'il':   # the same on a ladder, with chain nodes in between
         s = rng.choice(['', '', '='])
@@ -269,6 +273,15 @@ class C08(common.Prop):
             {'kind': 'frag', 's': '{#X=[#A]1[#B]2[#A]3[#B]4[#A]5[#B]6[#A]7[#B]8[#A]9[#B]%10[#C][#A]123456789%10[$]}', 'aa': False},
             {'kind': 'frag', 's': '{#X=[#A]1[#B]2[#A]3[#B]4[#A]5[#B]6[#A]7[#B]8[#A]9[#B]%10[#A]%11[#B]%12[#C][#C][#C][#A]123456789%10%11%12[#B][$]}',
              'aa': False},
+            # order-0 edges ('.'): in coarse fragments (chain, branch, ring-closing edge) and on base graphs, incl. virtual sites
+            {'kind': 'frag', 's': '{#A=[$][#X][#Y].[#V]}', 'aa': False},
+            {'kind': 'frag', 's': '{#A=[$][#P]([#Q].[#R])=[#S]=[>],#B=[<][#T]#[#U].[#W][$]}', 'aa': False},
+            {'kind': 'frag', 's': '{#A=[#P].([#Q])[#R][$]}', 'aa': False},
+            {'kind': 'frag', 's': '{#C=[$][#K].1[#L][#M]=[#N]1[$]}', 'aa': False},
+            {'kind': 'whole', 's': '{[#A][#B].[#V]}.{#A=[$]CC[$],#B=[$]OC}', 'aa': True},
+            {'kind': 'whole', 's': '{[#A].[#B]}.{#A=CC[$],#B=[$]CO}', 'aa': True},
+            {'kind': 'whole', 's': '{[#A].1[#B][#A]1}.{#A=[$]CC[$],#B=[$]O[$]}', 'aa': True},
+            {'kind': 'whole', 's': '{[#M][#M]}.{#M=[$][#A][#B][$].[#V]}.{#A=[$]CC[$],#B=[$]O[$]}', 'aa': True},
             {'kind': 'whole', 's': '{[#CHOL][#SUC]}.{#CHOL=C1CCC2C1(CCC3C2CC=C4C3(CCC(C4)O[>])C)C,#SUC=[<]C(=O)CCC(=O)O}',
              'aa': True},
             {'kind': 'whole', 's': '{[#A][#B][#A]}.{#A=[$]C1CC2C1CC1CC2CC1,#B=[$]C12C3C4C1C5C2C3C45[$]}', 'aa': True},
@@ -322,7 +335,9 @@ class C08(common.Prop):
         n_whole = max(0, n - n_fb - n_frag - n_rfc)
         for _ in range(n_whole):
             names = rng.sample(['A', 'B', 'C', 'D'], rng.randint(1, 3))
-            base, _ = gens.rand_base_graph(rng, names, nmax=5, max_order=rng.choice([1, 1, 2]), p_zero=0.0)
+            base, _ = gens.rand_base_graph(rng, names, nmax=5, max_order=rng.choice([1, 1, 2]), p_zero=rng.choice([0.0, 0.0, 0.2]))
+            if rng.random() < 0.15:      # a virtual site without fragment, attached by the '.' bond
+                base = base[:-1] + rng.choice(['.[#V]', '.[#V]', '([#D]).[#V]' if 'D' in names else '.[#V]']) + '}'
             r = rng.random()
             kinds = rng.choice(['$', '$$><', '$!'])
             if r < 0.8:
